@@ -75,6 +75,7 @@ class Report:
 
     def instance(self, rid, construct, loc=None, what=None, n=1):
         """An obligation site examined by rule rid (counts towards the vacuity floor)."""
+        construct = construct.replace(' ', '')
         r = self.rules[rid]
         r['instances'] += n
         r['constructs'].add(construct)
@@ -87,10 +88,12 @@ class Report:
             r['samples'].append(s)
 
     def violation(self, rid, construct, loc, msg, detail=None):
+        construct = construct.replace(' ', '')
         self.rules[rid]['violations'] += 1
         self.findings.append(Finding(rid, construct, loc, msg, detail))
 
     def exception(self, rid, construct, reason):
+        construct = construct.replace(' ', '')
         self.exceptions.append({'rule': rid, 'construct': construct, 'reason': reason})
 
     def undecided_obligation(self, rid, construct, loc, msg):
